@@ -1218,10 +1218,10 @@ async def register_data(
 def remap_path(
     path_processor: ModuleType, path: str, old_dir: str, new_dir: str
 ) -> str:
-    if ":/" in path:
-        scheme = urllib.parse.urlsplit(path).scheme
-        if scheme == "file":
-            return "file://{}".format(
+    if path.startswith("file://"):
+        # A `file://` location is percent-encoded: decode it, move it, encode it again
+        return "file://{}".format(
+            urllib.parse.quote(
                 path_processor.join(
                     new_dir,
                     *os.path.relpath(urllib.parse.unquote(path[7:]), old_dir).split(
@@ -1229,12 +1229,14 @@ def remap_path(
                     ),
                 )
             )
-        else:
-            return path
+        )
+    elif urllib.parse.urlsplit(path).scheme and "://" in path:
+        return path
     else:
+        # A plain path is not percent-encoded: every character is literal
         return path_processor.join(
             new_dir,
-            *os.path.relpath(urllib.parse.unquote(path), old_dir).split(os.path.sep),
+            *os.path.relpath(path, old_dir).split(os.path.sep),
         )
 
 
